@@ -391,3 +391,22 @@ PROPS = {
         level_note="Trusted: Go's crypto/tls and crypto/x509; go-grpc-middleware's header parsing is part of the system under test.",
     ),
 }
+
+# Session 5: what was added to the generated domains / oracles (appended to the rule text each evidence file carries)
+RULE_ADDENDA = {
+    "C02": "TestC02Table (session 5): an eighth of the transactions lose their acknowledgement from the raft stand-in (entry committed and applied, the table layer is told 'timeout'); oracle: one call puts at most one entry into the log, the model follows the log.",
+    "C05": "Session 5: the key alphabet holds the keys at the very end of the key space (1019 / 1024 bytes of 0xFF).",
+    "C06": "Session 5: a replicate call may be served by a node whose OWN copy lags 1-4 entries behind the table's applied index (a consensus read catches it up, a local read does not) and whose first consensus read is refused with the raft library's transient busy error; no answer is fine then, an answer must be right with respect to the table's applied index.",
+    "C07": "Session 5: TestC07Cluster in quiet mode (half of the cases) runs no reconcile round between the moment a restore returns and the moment every node has been judged - every node must look the table up as the new shard by catalogue propagation alone; records of 64-200 KiB also in the quick tier.",
+    "C09": "Session 5: 'the maximum value size' of the large-value generators is table.MaxValueLen read from the code under test.",
+    "C10": "Session 5: in half of the concurrent cases the clients call their node's KV API handlers (one regattaserver.KVServer per node, shared by that node's clients) instead of the engine; all clients issue the same linearizable range read.",
+    "C11": "TestC11RYW (session 5): another client writes to the leader directly between forwarded writes, forwarded deletes carry count / prev_kv; a quarter of the cases start with an aimed prefix in which the forwarded write is a no-op on the leader (delete of a key another client just deleted there, transaction with an empty executed branch) while the follower still holds the old state.",
+    "C13": "Session 5: list / listdir answers for well-formed paths are also compared with an independent reading of 'directory listing' (next path element of every key below the path); relative keys differing from the queue keys in their first element only.",
+    "C14": "Session 5: TestC14 action cleanup (the delayed removal of stopped shards' data falls due, grace period 1 ns through the hook): every catalogued table holds its model content right afterwards and after the next engine restart. TestC14Reconcile also restores small streams into existing and NEW names while rounds run; a restore that runs into its one-minute deadline is decided by a control (same restore with the reconciler held still, then with rounds again).",
+    "C15": "Session 5: a fifth of the TestC15 / TestC15Replicas cases mix create-table / delete-table calls on the leased table's name into the programs; judged by the two-holders invariant.",
+    "C17": "Session 5: one leader process is configured with tokens made of metacharacters ($VAR, ${..}, %verbs, templates, quotes, back-ticks).",
+    "C18": "TestC18Wire (session 5): in half of the backup cases the restore stream is cut by the harness (piece sizes 1 B - 3 MiB, empty chunks in the middle and at the end) instead of by the stock client.",
+    "C19": "TestC19Engine (session 5): a third of the cases also drain streamed range reads of several messages one message at a time across leadership transfers; every message's header takes part in the per-node term monotonicity check.",
+}
+for _k, _v in RULE_ADDENDA.items():
+    PROPS[_k]["rule"] = PROPS[_k]["rule"].rstrip() + " " + _v
